@@ -4,6 +4,8 @@ Z3 = "cspuz/backend/z3.py"
 ARR = "cspuz/array.py"
 SOLV = "cspuz/solver.py"
 SUGAR = "cspuz/backend/sugar_like.py"
+CONF = "cspuz/configuration.py"
+GRAPH = "cspuz/graph.py"
 
 MUTANTS = {
     "C13": [
@@ -64,5 +66,20 @@ MUTANTS = {
         ("native division: sizes None emitted as 0", [(SUGAR, '    if e is None:\n        return "*"', '    if e is None:\n        return "0"')]),
         ("constant false emitted as true", [(SUGAR, '        return "true" if e.operands[0] else "false"', '        return "true"')]),
         ("last constraint not emitted", [(SUGAR, "            self.converted_constraints += map(_convert_expr, constraint)", "            self.converted_constraints += map(_convert_expr, constraint[:-1] if len(constraint) > 3 else constraint)")]),
+    ],
+    "C20": [
+        ("detection: csugar before enigma_csp", [(CONF, "    try:\n        import enigma_csp  # type: ignore  # noqa\n\n        return \"enigma_csp\"\n    except ImportError:\n        pass\n\n    try:\n        import pycsugar  # type: ignore  # noqa\n\n        return \"csugar\"\n    except ImportError:\n        pass\n", "    try:\n        import pycsugar  # type: ignore  # noqa\n\n        return \"csugar\"\n    except ImportError:\n        pass\n\n    try:\n        import enigma_csp  # type: ignore  # noqa\n\n        return \"enigma_csp\"\n    except ImportError:\n        pass\n")]),
+        ("csugar dispatches to SugarExtendedBackend", [(SOLV, "        return backend.sugar_like.CSugarBackend", "        return backend.sugar_like.SugarExtendedBackend")]),
+        ("strtobool accepts yes", [(CONF, 'if s in ("true", "1"):', 'if s in ("true", "1", "yes"):')]),
+        ("explicit False falls back to config (connected)", [(GRAPH, "    if use_graph_primitive is None:\n        use_graph_primitive = config.use_graph_primitive\n    if use_graph_primitive and not acyclic:", "    if not use_graph_primitive:\n        use_graph_primitive = config.use_graph_primitive\n    if use_graph_primitive and not acyclic:")]),
+        ("primitive used when acyclic", [(GRAPH, "    if use_graph_primitive and not acyclic:", "    if use_graph_primitive:")]),
+        ("per-call backend ignored", [(SOLV, "    if backend is None:\n        return _get_default_backend()", "    if backend is None or isinstance(backend, str):\n        return _get_default_backend()")]),
+        ("borders variant follows use_graph_primitive", [(GRAPH, "        use_graph_primitive = config.use_graph_division_primitive", "        use_graph_primitive = config.use_graph_primitive")]),
+        ("sugar_extended gets primitive default", [(CONF, 'if self.default_backend in ("csugar", "enigma_csp", "cspuz_core"):', 'if self.default_backend in ("csugar", "enigma_csp", "cspuz_core", "sugar_extended"):')]),
+        ("division env var reads the other key", [(CONF, '                "CSPUZ_USE_GRAPH_DIVISION_PRIMITIVE",', '                "CSPUZ_USE_GRAPH_PRIMITIVE",')]),
+        ("unknown backend falls back to z3", [(SOLV, '        raise ValueError("invalid backend {}".format(backend_name))', '        return backend.z3.Z3Backend')]),
+        ("single_cycle ignores explicit True when config off", [(GRAPH, "    if use_graph_primitive is None:\n        use_graph_primitive = config.use_graph_primitive\n    n = graph.num_vertices\n\n    is_passed = solver.bool_array(n)\n\n    if use_graph_primitive:\n        for i in range(n):\n            degree = count_true([is_active_edge[e] for j, e in graph.incident_edges[i]])\n            solver.ensure(degree == is_passed[i].cond(2, 0))", "    use_graph_primitive = config.use_graph_primitive and use_graph_primitive is not False\n    n = graph.num_vertices\n\n    is_passed = solver.bool_array(n)\n\n    if use_graph_primitive:\n        for i in range(n):\n            degree = count_true([is_active_edge[e] for j, e in graph.incident_edges[i]])\n            solver.ensure(degree == is_passed[i].cond(2, 0))")]),
+        ("backend_path ignored by sugar_extended", [(SUGAR, "class SugarExtendedBackend(SugarLikeBackend):\n    def _call_solver(self, csp_description: str) -> str:\n        sugar_path = config.backend_path or \"sugar\"", "class SugarExtendedBackend(SugarLikeBackend):\n    def _call_solver(self, csp_description: str) -> str:\n        sugar_path = \"sugar\"")]),
+        ("config flag captured at import time in division_connected", [(GRAPH, "    if use_graph_primitive is None:\n        use_graph_primitive = config.use_graph_primitive\n\n    n = graph.num_vertices\n    m = len(graph)\n\n    if use_graph_primitive:\n        for i in range(num_regions):", "    if use_graph_primitive is None:\n        use_graph_primitive = _IMPORT_TIME_FLAG\n\n    n = graph.num_vertices\n    m = len(graph)\n\n    if use_graph_primitive:\n        for i in range(num_regions):"), (GRAPH, "class Graph(object):", "_IMPORT_TIME_FLAG = config.use_graph_primitive\n\n\nclass Graph(object):")]),
     ],
 }
